@@ -44,8 +44,7 @@ theorem leafCall_fail (r : Nat) (s : State) (hr : r < s.heap.length) (hk : posKi
   · rfl
 
 theorem plainLoop_keeps (rs : List Nat) (ok : Bool) (s : State)
-    (hrs : ∀ r ∈ rs, r < s.heap.length) (hk : ∀ r ∈ rs, posKind (s.obj r).kind = true)
-    (hkind : ∀ (s' : State) r, CallKeeps s s' → (s'.obj r).kind = (s.obj r).kind) :
+    (hrs : ∀ r ∈ rs, r < s.heap.length) (hk : ∀ r ∈ rs, posKind (s.obj r).kind = true) :
     CallKeeps s (plainLoop rs ok s).2 := by
   induction rs generalizing ok s with
   | nil => exact CallKeeps.refl s
@@ -56,9 +55,102 @@ theorem plainLoop_keeps (rs : List Nat) (ok : Bool) (s : State)
     rcases hlc : leafCall r s with ⟨ok1, s1⟩
     rw [hlc] at k1
     simp only []
-    refine k1.trans (ih _ s1 ?_ ?_ ?_)
+    refine k1.trans (ih _ s1 ?_ ?_)
     · intro r' h'; rw [k1.heap_len]; exact hrs r' (by simp [h'])
-    · intro r' h'; rw [hkind s1 r' k1]; exact hk r' (by simp [h'])
-    · intro s' r' k'; rw [hkind s' r' (k1.trans k'), hkind s1 r' k1]
+    · intro r' h'; rw [k1.kinds r']; exact hk r' (by simp [h'])
+
+end MM
+
+namespace MM
+
+theorem plainLoop_fail (rs : List Nat) (s : State)
+    (hrs : ∀ r ∈ rs, r < s.heap.length) (hk : ∀ r ∈ rs, posKind (s.obj r).kind = true) (ok : Bool)
+    (hf : (plainLoop rs ok s).1 = false) : ok = false ∧ (plainLoop rs ok s).2.atoms = s.atoms := by
+  induction rs generalizing ok s with
+  | nil => exact ⟨by simpa [plainLoop] using hf, rfl⟩
+  | cons r rs ih =>
+    have hr : r < s.heap.length := hrs r (by simp)
+    simp only [plainLoop] at hf ⊢
+    have k1 := leafCall_keeps r s hr (hk r (by simp))
+    have hfail := leafCall_fail r s hr (hk r (by simp))
+    rcases hlc : leafCall r s with ⟨ok1, s1⟩
+    rw [hlc] at k1 hfail hf
+    simp only [] at hf hfail ⊢
+    have := ih s1 (fun r' h' => by rw [k1.heap_len]; exact hrs r' (by simp [h']))
+      (fun r' h' => by rw [k1.kinds r']; exact hk r' (by simp [h'])) (ok || ok1) hf
+    have hb : ok = false ∧ ok1 = false := by
+      cases ok <;> cases ok1 <;> simp_all
+    exact ⟨hb.1, by rw [this.2, hfail hb.2]⟩
+
+theorem compDispLoop_count (rs : List Nat) (acc : List (Option Int)) (s : State)
+    (hrs : ∀ r ∈ rs, r < s.heap.length) :
+    (acc.filterMap id).length ≤ ((compDispLoop rs acc s).1.filterMap id).length ∧
+    (((compDispLoop rs acc s).1.filterMap id).length = (acc.filterMap id).length →
+      (compDispLoop rs acc s).2.atoms = s.atoms) := by
+  induction rs generalizing acc s with
+  | nil => simp [compDispLoop]
+  | cons r rs ih =>
+    have hr : r < s.heap.length := hrs r (by simp)
+    simp only [compDispLoop]
+    split
+    · have := ih (acc ++ [none]) s (fun r' h' => hrs r' (by simp [h']))
+      simpa using this
+    · rcases hch : choice (setdiff (uniqueLabels (s.obj r).labels) (acc.filterMap id)) 0 s.inp with ⟨l, i⟩
+      simp only []
+      generalize hs1 : (({ s with inp := i } : State).setObj r { s.obj r with toDisplace := some l }) = s1
+      have hlen1 : s1.heap.length = s.heap.length := by rw [← hs1]; simp [State.setObj]
+      have hat1 : s1.atoms = s.atoms := by rw [← hs1]; rfl
+      have hr1 : r < s1.heap.length := by rw [hlen1]; exact hr
+      have hsp := dispCall_spec r s1 hr1
+      rcases hdc : dispCall r s1 with ⟨ok, s2⟩
+      rw [hdc] at hsp
+      simp only []
+      have hrs2 : ∀ r' ∈ rs, r' < s2.heap.length := by
+        intro r' h'; rw [hsp.heap_len, hlen1]; exact hrs r' (by simp [h'])
+      cases ok with
+      | false =>
+        have := ih (acc ++ [none]) s2 hrs2
+        have ha2 : s2.atoms = s.atoms := by rw [(hsp.fail_atoms rfl).1, hat1]
+        simp only [Bool.false_eq_true, if_false]
+        simp only [List.filterMap_append, List.filterMap_cons, id, List.filterMap_nil, List.append_nil] at this ⊢
+        exact ⟨this.1, fun h => by rw [this.2 h, ha2]⟩
+      | true =>
+        obtain ⟨l', d, _, hdis, _⟩ := hsp.ok_atoms rfl
+        have := ih (acc ++ [some l']) s2 hrs2
+        simp only [if_true, hdis]
+        simp only [List.filterMap_append, List.filterMap_cons, id, List.filterMap_nil, List.length_append,
+          List.length_cons, List.length_nil] at this ⊢
+        exact ⟨by omega, fun h => by omega⟩
+
+theorem compDispCall_fail (rs : List Nat) (s : State) (hrs : ∀ r ∈ rs, r < s.heap.length)
+    (hf : (compDispCall rs s).1 = false) : (compDispCall rs s).2.2.atoms = s.atoms := by
+  have h := compDispLoop_count rs [] s hrs
+  simp only [compDispCall, decide_eq_false_iff_not, Nat.not_lt, Nat.le_zero] at hf ⊢
+  apply h.2
+  simpa using hf
+
+/-- trees whose call only moves atoms (no insertion, deletion, cell or momentum change) -/
+def PosTree (s : State) : Tree → Prop
+  | .leaf r => posKind (s.obj r).kind = true
+  | .compDisp _ => True
+  | .plain rs => ∀ r ∈ rs, posKind (s.obj r).kind = true
+  | .compExch _ _ => False
+
+theorem callTree_keeps (t : Tree) (s : State) (hrs : ∀ r ∈ t.refs, r < s.heap.length) (ht : PosTree s t) :
+    CallKeeps s (callTree t s).2 := by
+  cases t with
+  | leaf r => exact leafCall_keeps r s (hrs r (by simp [Tree.refs])) ht
+  | compDisp rs => exact compDispLoop_keeps rs [] s (fun r h => hrs r (by simpa [Tree.refs] using h))
+  | plain rs => exact plainLoop_keeps rs false s (fun r h => hrs r (by simpa [Tree.refs] using h)) ht
+  | compExch rs b => exact absurd ht (by simp [PosTree])
+
+theorem callTree_fail (t : Tree) (s : State) (hrs : ∀ r ∈ t.refs, r < s.heap.length) (ht : PosTree s t)
+    (hf : (callTree t s).1 = false) : (callTree t s).2.atoms = s.atoms := by
+  cases t with
+  | leaf r => exact leafCall_fail r s (hrs r (by simp [Tree.refs])) ht hf
+  | compDisp rs => exact compDispCall_fail rs s (fun r h => hrs r (by simpa [Tree.refs] using h)) hf
+  | plain rs =>
+    exact (plainLoop_fail rs s (fun r h => hrs r (by simpa [Tree.refs] using h)) ht false hf).2
+  | compExch rs b => exact absurd ht (by simp [PosTree])
 
 end MM
